@@ -1294,14 +1294,14 @@ def scen_C07(ctx):
     # access beyond the first chunk happens at creation (the last word of the file) and at any bucket beyond it afterwards
     def bigtable(i):
         g = G.G(ctx.seed, 'C07big', i)
-        n = [16384, 65536, 32768][i % 3]
+        n = [16384, 32768, 16384, 65536][i % 4]
         hb = ['HA', 'HS0', 'HP1000', 'HA', 'HS262144'][i % 5]
         kt = G.KTS[i % 5]
         ks = g.key_universe(kt, 12)
         lines = ['db d0 db', 'map m0 d0 %s m B%d,VA,KA,%s' % (kt, n, hb)] + g.hist(kt, 40, keys=ks, big=0.0, reads=0.3) + ['len m0', 'iter m0 iter', 'closeall', 'snap db',
                  'db d0 db', 'map m0 d0 %s m B8,VP1000,KP1000,%s' % (kt, ['HA', 'HS0'][i % 2])] + ['get m0 %s' % G.hx(k) for k in ks] + ['put m0 %s 0707' % G.hx(ks[0]), 'len m0', 'closeall', 'snap db']
         pair(ctx, 'big_table', i, lines, op_timeout=120)
-    parallel(bigtable, range(ctx.scale(5, 20)), workers=5)
+    parallel(bigtable, range(ctx.scale(3, 20)), workers=5)
     io_traces(ctx, ctx.scale(8, 60), ctx.scale(3, 12), 0, 0)
     # L_cache: the model of the buffer cache (Cache.v, proved transparent for >= 2 chunks) against the real rabuf
     import scen_cache as SC
